@@ -5,8 +5,11 @@ import vf
 SEEDS = os.path.join(vf.VERIF, "corpus", "seeds.jsonl")
 
 
+SIB = 0   # systematic vocabulary-sibling cases per element (set by the C02 check)
+
+
 def run_worker(binary, args, timeout=3600, heavy=False, start=0):
-    extra = {"ASAN_OPTIONS": vf.SAN_ENV["ASAN_OPTIONS"] + ":hard_rss_limit_mb=8000", "VERIF_START_CASE": str(start)}
+    extra = {"ASAN_OPTIONS": vf.SAN_ENV["ASAN_OPTIONS"] + ":hard_rss_limit_mb=8000", "VERIF_START_CASE": str(start), "VERIF_SIB": str(SIB), "VERIF_NWORKERS": str(vf.NPROC)}
     if heavy:
         extra["VERIF_HEAVY"] = "1"
     env = vf.env_for(extra=extra)
